@@ -29,7 +29,25 @@ type prog struct {
 	cfg  int // tuple configuration index (-1 for the static programs)
 }
 
+// tupleCfg: configuration i; i >= numCfgs() selects the same tuple with the source (mode 1), the destination (2) or both (3)
+// given in their IPv4-mapped IPv6 representation (::ffff:a.b.c.d), as net.TCPAddr.AddrPort() hands them out.
 func tupleCfg(i int) (netip.AddrPort, netip.AddrPort) {
+	mode := i / numCfgs()
+	i %= numCfgs()
+	s, d := tupleCfgPlain(i)
+	mapped := func(a netip.AddrPort) netip.AddrPort {
+		return netip.AddrPortFrom(netip.AddrFrom16(a.Addr().As16()), a.Port())
+	}
+	if mode&1 != 0 {
+		s = mapped(s)
+	}
+	if mode&2 != 0 {
+		d = mapped(d)
+	}
+	return s, d
+}
+
+func tupleCfgPlain(i int) (netip.AddrPort, netip.AddrPort) {
 	na, np := len(cfgAddrs), len(cfgPorts)
 	sa := cfgAddrs[i%na]
 	i /= na
@@ -178,9 +196,13 @@ func sweep(p prog, ei, pi int, fullLengths bool) blockResult {
 	}
 	vm, err := vmOf(spec, dropAll)
 	if err != nil {
+		if p.cfg >= numCfgs() {
+			return br // a configuration in mapped representation may be refused (nothing is then installed); if a program IS produced it must be exact
+		}
 		br.fail = "program does not assemble / load: " + err.Error()
 		return br
 	}
+	src, dst = netip.AddrPortFrom(src.Addr().Unmap(), src.Port()), netip.AddrPortFrom(dst.Addr().Unmap(), dst.Port())
 	ref := func(f []byte) bool {
 		switch p.name {
 		case "drop-all":
@@ -316,6 +338,10 @@ func progs(tier string) []prog {
 	}
 	for _, c := range cfgs {
 		ps = append(ps, prog{"tcp-tuple", packets.PacketFilterSpec{FilterType: packets.FilterTypeTCP}, c})
+	}
+	// the address REPRESENTATION of the configuration: the first tuple with source / destination / both IPv4-mapped
+	for mode := 1; mode <= 3; mode++ {
+		ps = append(ps, prog{"tcp-tuple-mapped", packets.PacketFilterSpec{FilterType: packets.FilterTypeTCP}, quickCfgs()[0] + mode*numCfgs()})
 	}
 	return ps
 }
